@@ -143,7 +143,19 @@ func ldapPacket(t, id int) []byte {
 	return p.Bytes()
 }
 
-func payload(svc, t, a int) []byte {
+// every data byte a tftp client uploads: its own (Model.v fill_of)
+func fillOf(conn int) byte { return byte(1 + conn%250) }
+
+// the digest of an uploaded file (Model.v hash_fill)
+func fileDigest(b []byte) int {
+	h := 0
+	for _, c := range b {
+		h = (h*31 + int(c)) % 999983
+	}
+	return h
+}
+
+func payload(svc, conn, t, a int) []byte {
 	switch svc {
 	case LDAP:
 		return ldapPacket(t, a)
@@ -205,11 +217,13 @@ func payload(svc, t, a int) []byte {
 		case 2:
 			return append([]byte{0, 2}, []byte(file+"\x00octet\x00")...)
 		case 3:
-			return append([]byte{0, 3, byte(a >> 8), byte(a)}, bytes.Repeat([]byte{'d'}, 512)...)
+			return append([]byte{0, 3, byte(a >> 8), byte(a)}, bytes.Repeat([]byte{fillOf(conn)}, 512)...)
 		case 4:
-			return append([]byte{0, 3, byte(a >> 8), byte(a)}, bytes.Repeat([]byte{'e'}, 100)...)
+			return append([]byte{0, 3, byte(a >> 8), byte(a)}, bytes.Repeat([]byte{fillOf(conn)}, 100)...)
 		case 5:
 			return []byte{0, 4, 0, 1}
+		case 7: // an empty final block
+			return []byte{0, 3, byte(a >> 8), byte(a)}
 		}
 		return []byte{0, 9, 0, 0}
 	}
@@ -455,7 +469,12 @@ func canonEvent(svc int, ev event.Event, sids map[string]int) OEv {
 		case "tftp-write":
 			o.Type, o.Arg = 2, f
 		case "tftp-write-file":
-			o.Type, o.Arg = 3, f*100000+len(asStr(m["tftp.file"]))
+			// file name, length and digest of the bytes recorded
+			content := []byte(asStr(m["tftp.file"]))
+			o.Type, o.Arg = 3, -1
+			if f >= 0 && f < 10 {
+				o.Arg = (fileDigest(content)*10+f)*100000 + len(content)
+			}
 		default:
 			o.Type = 99
 		}
